@@ -19,3 +19,8 @@ claim("C07", "model_checking",
       "Every mutated stream in the stated operator family is executed on the real engine/decoders with panics caught: the engine must not panic, must pair every PeerError with Closed, must reject limit+1 at the header and deliver exactly-limit, and must never deliver more than the honest partner sent under CURVE/NOISE.",
       "mutation operators are a fixed family (byte := 00|FF|7F, ^01, ^80, truncate, length-field extremes, unit dup/drop/swap), not all byte strings; handshake-interval pacing, slot release and locality need the session actor and are checked by the E3 sub-checks (added with the world explorer); io_uring handler is covered under C20",
       "5/C07")
+claim("C18", "model_checking",
+      "E1: exhaustive enumeration on freshly handshaken real engine pairs: size/batch alphabet through the real record layer, heartbeat placement cases, every single bit flip (quick: bits 0 and 7) / truncation / record drop-dup-swap-inject of the captured ciphertext stream (thorough: all pairs of flips), session-to-session ciphertext comparison",
+      "For CURVE and NOISE_XX in both directions, every case of the stated finite alphabets is executed on two real engines sharing a live session; the receiver must deliver exactly what the sender accepted (or the sender must have refused), heartbeats must be decodable, any tampered stream must yield only a prefix of the sent messages, and two sessions must not produce identical ciphertext.",
+      "sizes from the boundary alphabet only; secrecy checked as absence of a payload marker on the wire (not a cryptographic proof); sans-IO engine level — egress ordering of encrypted records in the session actor is exercised by the E3 stack checks",
+      "5/C18")
